@@ -37,14 +37,27 @@ for name, ft in graphtage.FILETYPES_BY_TYPENAME.items():
     src = inspect.getsource(fn)
     tree = ast.parse("class _X:\n" + src if src.startswith("    ") else src)
     caught = []
+    def calls_build_tree(stmts):
+        for st in stmts:
+            for n in ast.walk(st):
+                if isinstance(n, ast.Call):
+                    f = n.func
+                    if (isinstance(f, ast.Attribute) and f.attr == "build_tree") or (isinstance(f, ast.Name) and f.id == "build_tree"):
+                        return True
+        return False
     for node in ast.walk(tree):
-        if isinstance(node, ast.ExceptHandler):
-            if node.type is None:
-                caught.append("BaseException")
-            elif isinstance(node.type, ast.Tuple):
-                caught += [dotted(e) for e in node.type.elts]
-            else:
-                caught.append(dotted(node.type))
+        # only the handlers of a `try` whose BODY makes the build_tree call count, and a handler whose body contains a
+        # `raise` (re-raise or a new exception) catches nothing as far as the command line is concerned
+        if isinstance(node, ast.Try) and calls_build_tree(node.body):
+            for h in node.handlers:
+                if any(isinstance(n, ast.Raise) for st in h.body for n in ast.walk(st)):
+                    continue
+                if h.type is None:
+                    caught.append("BaseException")
+                elif isinstance(h.type, ast.Tuple):
+                    caught += [dotted(e) for e in h.type.elts]
+                else:
+                    caught.append(dotted(h.type))
     # resolve each caught name to the class object in the defining module's namespace
     resolved = []
     for c in caught:
